@@ -106,7 +106,7 @@ def gen_esn(rng, fb=None):
 # ------------------------------------------------------------------------------------------ feedback topologies (C05)
 def gen_fb(rng, family=None):
     """Feedback scenario skeleton: (nodes, models, receiver id, sender id or None, pre_ops)."""
-    fam = family or rng.choice(["down", "up", "outside", "sub-up", "sub-down", "resfb", "resfb-fun"])
+    fam = family or rng.choice(["down", "up", "outside", "sub-up", "sub-down", "resfb", "resfb-fun", "esn-fb"])
     d = rng.randint(1, 2)
     pre = []
     if fam == "down":
@@ -151,6 +151,9 @@ def gen_fb(rng, family=None):
         res.update(kind="resfb", Wfb=mat(rng, u, u, 2, 1), fbact=rng.choice(["id", "relu", "half"]), fb={"node": 1})
         nodes = [res, make_node(rng, 1, rng.choice(["fun", "acc"]), u)]
         models = [{"nodes": [0, 1], "edges": [[0, 1]]}]
+        recv, send = 0, 1
+    elif fam == "esn-fb":  # the ESN convenience node with feedback readout -> reservoir (constructor flag or hand-wired)
+        nodes, models, d = gen_esn(rng, fb=True)
         recv, send = 0, 1
     else:  # resfb: reservoir with Wfb fed back by its readout
         res = make_node(rng, 0, "res", d)
